@@ -214,11 +214,10 @@ def styleNode (cfg : Cfg) (css : List (List Char × List Char)) : Node :=
   .elem .style [] [.text (escapeCss (cfg.css0 ++ '\n' :: legendCss css))]
 where
   /-- character data of the style element: markup characters of the legend are escaped, characters
-  XML cannot carry are dropped -/
+  XML cannot carry are dropped; line breaks (also CR) stay, an XML parser normalises them -/
   escapeCss (s : List Char) : List Char := s.flatMap fun c =>
     if c == '<' then "&lt;".toList else if c == '&' then "&amp;".toList
     else if c == '>' then "&gt;".toList
-    else if c == '\r' then "&#13;".toList
     else if xmlChar c then [c] else []
 
 /-- canvas size `get_size`: numerators over `den` -/
